@@ -20,6 +20,21 @@ CLAIMED = {
     'C04': dict(cat='proof', technique='Coq proof over the whole finite domain of a Gallina model of asm() (size = encoding the assembler selects) + exhaustive per-run correspondence of that model with the real asm() through the verification hook + re-assembly of compiled functions by the extracted encoder',
                 text='For every (mnemonic, operand kind, variable type/memory class/constness, byte selection, scheme) the model of asm() is proved to report the size of the encoding a 6502 assembler selects; the model is compared with the real asm() on all ~80 000 cells every run (exhaustive); optimiser and branch repair are proved to only delete such instructions or add instructions of known real size; and every function of seeded programs is re-assembled by the extracted encoder and compared with size_bytes().',
                 ref='DESIGN.md section 6 C04'),
+    'C05': dict(cat='proof', technique='Coq proof on a model of the insertion-counter ordering (hash-map iteration = arbitrary permutation) + repeated compilation in one process and in fresh processes',
+                text='Proved: sorting by the insertion counter yields one sequence for every permutation of the table, because every declaration history gives distinct counters (re-declarations keep their rank; the old defect is refuted by a two-permutation witness). The hash seed itself is outside the model: each program is compiled 12 times in-process and in several fresh processes, interleaved in shuffled order, and all dumps must be identical. Partial.',
+                ref='DESIGN.md section 6 C05'),
+    'C12': dict(cat='proof', technique='Coq proof that the depth-first marking equals reachability for every finite call tree + exact per-run correspondence of in-use sets + source-call-graph comparison',
+                text='The model of compute_functions_actually_in_use is proved to compute exactly the reachable set (cycles included) and is compared with the real in-use set on the real call tree of every compiled program; that every call lowering records the call is checked against the call graph of the generated source (calls in every position, inline and nested).',
+                ref='DESIGN.md section 6 C12'),
+    'C13': dict(cat='proof', technique='Coq proofs (asm() accepts a data operand only when the 6502 has a mode; label suffixing injective and closed; repair and optimiser keep labels unique) + exhaustive asm() correspondence + Coq-extracted assembler front end run on all emitted code',
+                text='Legality of everything asm() accepts for load/store/ALU/compare mnemonics is proved on the model compared exhaustively with the code; label uniqueness/definedness is proved preserved by inlining, optimisation and branch repair; the extracted front end (modes, label tables, symbols) runs on every function of label-heavy generated programs at every level. Known finding: user labels named like generated ones.',
+                ref='DESIGN.md section 6 C13'),
+    'C14': dict(cat='proof', technique='Coq proofs about append_code/push_code (shape, injective and closed renaming) + exact unit correspondence + co-execution of every program with and without the inline keyword',
+                text='Structure proved; the behavioural simulation (spliced body vs JSR/RTS) is not proved but co-executed on the extracted 6502 semantics from identical states for all/part/none of the functions marked inline at every level. Partial.',
+                ref='DESIGN.md section 6 C14'),
+    'C16': dict(cat='exploration', technique='mutation fuzzing of near-valid programs under catch_unwind + watchdog, with Coq totality theorems for the modelled components',
+                text='Totality of the modelled components (optimiser, branch repair, call-graph marking) is proved in Coq; the parser and generator are explored with token-level mutants, near-valid templates and random bytes under every option set, each compilation in a worker with a watchdog; outcomes must be Ok or an error located inside the input. Panics are attributed to a known finding only by panic site and input class.',
+                ref='DESIGN.md section 6 C16'),
 }
 
 NOT_YET = {}
